@@ -1,21 +1,29 @@
 """C20 — chemical-reaction steps conserve energy and keep molecules aligned (Cro.tla, Run.tla clause C20)."""
 import json, os
 import vlib
-from checks import runlib
+from checks import runlib, templates_grid
 
 MANIFEST = {
     "modules": ["Cro", "Trace_Cro", "Run"],
     "text": "Cro.tla models the four elementary reaction updates over integer energies exactly as the components compute them "
-            "(accepted / rejected / buffer-assisted, random splits as nondeterministic choices); TLC checks Conserved (sum of "
-            "objective values + kinetic energies + buffer unchanged by every action), NonNegative, Aligned, ConsumesTwo and "
-            "Locality for all energies and reaction outcomes within the bound. Binding (prepared states): every (state, "
-            "reaction) pair of the bounded model and seeded random integer-energy states (equal individuals, zero energies, "
-            "boundary products) are executed by the real update components on a prepared State (population, molecule list, "
-            "buffer, reactant and product populations on the stack); Trace_Cro.tla loads each recorded state into Cro's "
+            "(accepted / rejected / buffer-assisted, random splits as nondeterministic choices) on a population whose "
+            "individuals hold solutions AND objective values (the same solution with different objective values, copies, a "
+            "product landing on a bystander's solution) with 0..1 populations of a caller underneath; TLC checks Conserved (sum of "
+            "objective values + kinetic energies + buffer unchanged by every action), NonNegative, Aligned, ConsumesTwo "
+            "(h = below + 3 -> below + 1) and Locality (bystanders keep solution, objective value and kinetic energy) for all "
+            "energies and reaction outcomes within the bound. Binding (prepared states): every (state, "
+            "reaction) pair of the bounded model and seeded random integer-energy states (equal individuals, equal solutions "
+            "with different objective values, zero energies, products costing exactly what is there / one more, 0..3 "
+            "populations underneath holding copies of reactants, products and the population) are executed by the real update "
+            "components on a prepared State, each in a power-of-two energy unit between 2^-200 and 2^200 (exact scaling: the "
+            "integer decision of the model binds at every magnitude), some with an offset of 2^51 (exact) or 2^60 (inexact) on "
+            "reactant and product; Trace_Cro.tla loads each recorded state into Cro's "
             "variables and requires the recorded outcome to be a step of Cro's own action for that call: accepted / rejected "
-            "decided from the integer energies, objective values after exactly, kinetic share and buffer level rounded, plus "
-            "float predicates (conserved, non-negative, shares add up, non-participants bit-identical, molecules aligned). "
-            "Binding (runs): real_cro runs over population sizes, "
+            "decided from the integer energies, objective values and solutions after exactly and in place, kinetic share and "
+            "buffer level rounded, plus float predicates (conserved, non-negative, shares add up, non-participants "
+            "bit-identical, molecules aligned, populations underneath bit-identical). "
+            "Binding (runs): real_cro runs, and runs of real_cro as a step of a heuristic with a population of its own "
+            "underneath (real_cro|under), over population sizes, "
             "collision rates and seeds under the step observer; after EVERY component TLC (Run.tla clause C20) requires "
             "energy conserved within 1e-9 relative w.r.t. the previous step, no negative kinetic energy or buffer, one "
             "molecule per individual of the base population, each molecule's remembered best no worse than its individual "
@@ -38,21 +46,30 @@ CRO_DESCRIBE = {
 
 
 def cfg_trace_cro(maxmol):
-    return ("SPECIFICATION TraceSpec\nCONSTANTS\n  MaxE = 0\n  MaxMol = %d\nPOSTCONDITION TraceDone\nCHECK_DEADLOCK FALSE\n" % maxmol)
+    return ("SPECIFICATION TraceSpec\nCONSTANTS\n  MaxE = 0\n  MaxMol = %d\n  MaxSol = 1\n  MaxBelow = 0\nPOSTCONDITION TraceDone\n"
+            "CHECK_DEADLOCK FALSE\n" % maxmol)
+
+
+def cfg_mc(maxmol, maxsol, maxbelow, tail):
+    return ("SPECIFICATION CSpec\nCONSTANTS\n  MaxE = 2\n  MaxMol = %d\n  MaxSol = %d\n  MaxBelow = %d\nVIEW McView\nCONSTRAINT Bounded\n%s"
+            "CHECK_DEADLOCK FALSE\n" % (maxmol, maxsol, maxbelow, tail))
 
 
 def prepared(ctx):
     """Prepared states: (B) every (state, reaction) pair of the bounded model, (C) random integer-energy states."""
     q = ctx.quick
-    ex = ctx.tlc_mc("MC_Cro", "SPECIFICATION CSpec\nCONSTANTS\n  MaxE = 2\n  MaxMol = %d\nVIEW McView\nCONSTRAINT Bounded\n"
-                    "ACTION_CONSTRAINT PrintEdge\nCHECK_DEADLOCK FALSE\n" % (2 if q else 3), "export-cro", workers=1, timeout=3000)
+    # quick: the 2-molecule model with up to two distinct solutions and one population underneath; thorough: that one, and
+    # the 3-molecule model on the minimal stack with everybody holding the same solution (different objective values)
+    exports = [("export-cro", 2, 2, 1)] + ([] if q else [("export-cro3", 3, 1, 0)])
     seen, cases = set(), []
     import tour
-    for e in tour.parse_edges(ex["out"]):
-        key = json.dumps([e["from"], e["act"]], sort_keys=True)
-        if key not in seen:
-            seen.add(key)
-            cases.append({"from": e["from"], "act": e["act"]})
+    for (name, mm, ms, mb) in exports:
+        ex = ctx.tlc_mc("MC_Cro", cfg_mc(mm, ms, mb, "ACTION_CONSTRAINT PrintEdge\n"), name, workers=1, timeout=3000)
+        for e in tour.parse_edges(ex["out"]):
+            key = json.dumps([e["from"], e["act"]], sort_keys=True)
+            if key not in seen:
+                seen.add(key)
+                cases.append({"from": e["from"], "act": e["act"]})
     if len(cases) < 1000:
         raise vlib.ToolError("export of the Cro model yielded only %d (state, reaction) pairs" % len(cases))
     ops = {c["act"]["op"] for c in cases}
@@ -84,11 +101,12 @@ def prepared(ctx):
 def run(ctx):
     q = ctx.quick
     prepared(ctx)
-    ctx.tlc_mc("MC_Cro", "SPECIFICATION CSpec\nCONSTANTS\n  MaxE = 2\n  MaxMol = %d\nVIEW McView\nCONSTRAINT Bounded\nINVARIANT NonNegative Aligned\n"
-               "PROPERTY Conserved ConsumesTwo Locality\nCHECK_DEADLOCK FALSE\n" % (2 if q else 3), "mc-cro",
+    ctx.tlc_mc("MC_Cro", cfg_mc(2 if q else 3, 2, 1, "INVARIANT NonNegative Aligned\nPROPERTY Conserved ConsumesTwo Locality\n"), "mc-cro",
                workers=4 if q else 10, timeout=3000)
     runlib.run_templates(ctx, ["C20"], seeds=list(range(ctx.seed, ctx.seed + (4 if q else 12))),
-                         iters=[0, 3, 20, 60] if q else [3, 20, 60, 200], templates=["real_cro"], quick_grid=False)
+                         iters=[0, 3, 20, 60] if q else [3, 20, 60, 200], templates=["real_cro"], quick_grid=False,
+                         more_specs=templates_grid.cro_under_specs(q, [ctx.seed, ctx.seed + 1] if q else list(range(ctx.seed, ctx.seed + 6)),
+                                                                   [3, 40] if q else [3, 40, 150]))
     return ctx.finish(RULE)
 
 
